@@ -65,6 +65,50 @@ func (fr *Frame) call(x *ssa.Call, c *ssa.CallCommon, h Heap) Heap {
 		key = "funcvalue " + types.TypeString(c.Value.Type(), nil)
 		fc = g.P.functypeContract(c.Value.Type())
 	}
+	// caller-specific assertions about the arguments of this call ("at call f assert ...")
+	if fr.top && fr.fc != nil && fr.fc.AtCall != nil {
+		short := ""
+		if callee != nil {
+			short = callee.Name()
+		} else if c.IsInvoke() {
+			short = c.Method.Name()
+		}
+		if cls := fr.fc.AtCall[short]; len(cls) > 0 {
+			env := fr.newSpecEnv(h, fr.entry)
+			for _, prm := range fr.fn.Params {
+				env.vars[prm.Name()] = &SVal{V: fr.vals[prm], T: prm.Type()}
+			}
+			// the callee's parameter names shadow the caller's
+			var sig *types.Signature
+			if callee != nil {
+				sig = callee.Signature
+			} else {
+				sig = c.Signature()
+			}
+			cpkg := env.pkg
+			env.bindSig(sig, callee, c, args)
+			env.pkg = cpkg
+			blk := fr.curBlock
+			env.locals = func(name string) *SVal {
+				if _, isParam := env.vars[name]; isParam {
+					return nil
+				}
+				if x != nil {
+					return fr.localBefore(name, x, h)
+				}
+				return fr.localAt(name, blk, h)
+			}
+			for i, cl := range cls {
+				env.where = fmt.Sprintf("%s:%d", cl.File, cl.Line)
+				f := env.boolTerm(cl.Expr)
+				label := cl.Label
+				if label == "" {
+					label = fmt.Sprintf("assert%d", i+1)
+				}
+				fr.oblig("callsite", "", "at."+short+"."+label, f, cl.Src, c.Pos())
+			}
+		}
+	}
 	// deferred closures and explicitly inlined callees: translate the body here
 	if callee != nil && len(callee.Blocks) > 0 && fr.depth < 4 {
 		inline := fc != nil && fc.Inline
